@@ -1229,13 +1229,66 @@ Definition justify (text : list Z) (amount : Z) : list Z :=
 
 Definition blank4 : list Z := [32; 32; 32; 32].
 
+(* ---------- want_generic: rd.to_generic(style.origin).to_styled_text(style) ----------
+   The RFC 3597 form is made from the wire form; modelled for the field kinds with a fixed wire
+   encoding (names uncompressed, big-endian integers, IPv4, character-strings). *)
+Fixpoint be_bytes (k : nat) (z : Z) : list Z :=
+  match k with
+  | O => []
+  | S k' => be_bytes k' (z / 256) ++ [z mod 256]
+  end.
+
+Definition hex_digit (d : Z) : Z := if d <? 10 then 48 + d else 87 + d.
+Definition hexlify (data : list Z) : list Z :=
+  flat_map (fun b => [hex_digit (b / 16); hex_digit (b mod 16)]) data.
+
+(* _wordbreak(data, 128, " ") *)
+Fixpoint wordbreak (fuel : nat) (l : list Z) : list Z :=
+  match fuel with
+  | O => l
+  | S f =>
+      match skipn (Z.to_nat 128) l with
+      | [] => l
+      | more => firstn (Z.to_nat 128) l ++ 32 :: wordbreak f more
+      end
+  end.
+
+Definition field_wire (origin : option name) (k : fkind) (f : fval) : res (list Z) :=
+  match k, f with
+  | KName, VName n => NameM.to_wire n origin false
+  | KU mx, VInt z => Ok (be_bytes (if mx <=? 255 then 1%nat else if mx <=? 65535 then 2%nat else 4%nat) z)
+  | KTtl, VInt z => Ok (be_bytes 4 z)
+  | KIPv4, VTok v => Ok (map int_of_digits (split_dot v []))
+  | KStrs, VStrs l => Ok (flat_map (fun s => zlen s :: s) l)
+  | _, _ => Lib eUnmodelled
+  end.
+
+Fixpoint fields_wire (origin : option name) (ks : list fkind) (rd : rdata) : res (list Z) :=
+  match ks, rd with
+  | [], [] => Ok []
+  | k :: ks', f :: rd' =>
+      do w <- field_wire origin k f;
+      do ws <- fields_wire origin ks' rd';
+      Ok (w ++ ws)
+  | _, _ => Lib eUnmodelled
+  end.
+
+Definition generic_text (ty : Z) (origin : option name) (rd : rdata) : res (list Z) :=
+  match tbl_by_code type_table ty with
+  | None => rdata_text ty None false false rd
+  | Some (_, ks) =>
+      do w <- fields_wire origin ks rd;
+      let h := hexlify w in
+      Ok ([92; 35; 32] ++ dec (zlen w) ++ 32 :: wordbreak (length h) h)
+  end.
+
 (* the lines of Rdataset.to_styled_text(style, name); dup = deduplicate_names && first_name_is_duplicate *)
 Fixpoint rds_lines (st : style) (ntext ttl cls ty : list Z) (r : rdataset) (rds : list rdata)
   : res (list (list Z)) :=
   match rds with
   | [] => Ok []
   | rd :: rest =>
-      do rt <- (if st_generic st then Lib eUnmodelled
+      do rt <- (if st_generic st then generic_text (rtype r) (st_origin st) rd
                 else rdata_text (rtype r) (st_origin st) (st_relativize st) (st_omit_dot st) rd);
       let line := ntext ++ ttl ++ cls ++ ty ++ 32 :: rt in
       let ntext' := if st_dedup st then justify blank4 (st_name_just st) else ntext in
